@@ -148,9 +148,7 @@ func (c *Ctx) applyRuleEnsures(cc *ssa.CallCommon, res *Val, st *State, pre *Sta
 		for _, a := range r.Assigns {
 			name := "G|" + a
 			if g, ok := c.P.CS.Ghosts[a]; ok {
-				if rt := c.resolveType(g.Ret, &Env{c: c, pkgPath: c.fn.Pkg.Pkg.Path()}); rt != nil {
-					c.registerMap(name, "(Array Int "+c.scalarSort(rt)+")")
-				}
+				c.registerMap(name, c.ghostMapSort(g))
 			}
 			if _, ok := c.heapSorts[name]; ok {
 				st.over[name] = c.fresh1(name+"@r", c.heapSorts[name])
@@ -340,4 +338,33 @@ func allFuncsOfPkg(p *Program, sp *ssa.Package) map[*ssa.Function]bool {
 		}
 	}
 	return out
+}
+
+// initGhostFields: ghost fields of a freshly allocated object start at their zero value
+// (a ghost field belongs to objects of the type its parameter names, e.g. closed(b *syncBatch))
+func (c *Ctx) initGhostFields(st *State, ref string, elem types.Type) {
+	n, ok := elem.(*types.Named)
+	if !ok {
+		return
+	}
+	for _, g := range c.P.CS.Ghosts {
+		if g.Kind != "field" || len(g.Params) != 1 {
+			continue
+		}
+		pt := strings.TrimPrefix(g.Params[0].Type, "*")
+		if i := strings.LastIndex(pt, "."); i >= 0 {
+			pt = pt[i+1:]
+		}
+		if pt != n.Obj().Name() {
+			continue
+		}
+		rt := c.resolveType(g.Ret, &Env{c: c, pkgPath: c.fn.Pkg.Pkg.Path()})
+		if rt == nil {
+			continue
+		}
+		name := "G|" + g.Name
+		sort := c.ghostMapSort(g)
+		c.registerMap(name, sort)
+		st.over[name] = c.define("gz", sort, "(store "+c.lookup(st, name)+" "+ref+" "+c.zeroVal(rt).S+")")
+	}
 }
